@@ -27,6 +27,12 @@ def prepare_expression(
         return PermFail(
             message=f"Parsing error at line {err.line}, column {err.column}. '{err}' in {location} ('{encoded}')",
         )
+    except Exception as err:
+        # celpy/lark can fail with other exceptions (e.g. an AssertionError from
+        # lark's error reporting when the offending token is `true`/`false`).
+        return PermFail(
+            message=f"Error compiling expression in {location} ('{encoded}'): {err!r}",
+        )
 
     value.logger.setLevel(logging.WARNING)
 
